@@ -10,5 +10,6 @@ CONSTANTS
     Mode = "mc"
     Depth = 0
     Eager = FALSE
+    SSHook = FALSE
 PROPERTIES StopsOnlyWhenIdleNow
 CHECK_DEADLOCK FALSE
